@@ -15,6 +15,7 @@ import (
 	"fmt"
 	"os"
 	"reflect"
+	"time"
 
 	"github.com/paulmach/osm"
 	"github.com/paulmach/osm/osmxml"
@@ -288,6 +289,14 @@ func corpus() []*obs {
 		out = append(out, run("Change", &osm.Change{Create: &osm.OSM{Nodes: osm.Nodes{{ID: osm.NodeID(id)}}, Ways: osm.Ways{{ID: osm.WayID(id)}}},
 			Delete: &osm.OSM{Relations: osm.Relations{{ID: osm.RelationID(id)}}}}, "corpus-change-id-range"))
 	}
+	// first-class zero values: the unix epoch as a timestamp, empty and repeated tag keys,
+	// annotations on relation-typed members, CR / CRLF in note texts
+	ep := time.Unix(0, 0).UTC()
+	out = append(out, run("Node", &osm.Node{ID: 9, Timestamp: ep, Committed: &ep, Tags: osm.Tags{{Key: "", Value: ""}, {Key: "", Value: "x"}, {Key: "k", Value: "1"}, {Key: "k", Value: "2"}}}, "corpus-epoch"))
+	out = append(out, run("Way", &osm.Way{ID: 9, Timestamp: ep, Updates: osm.Updates{{Index: 0, Version: 1, Timestamp: ep}}}, "corpus-epoch"))
+	out = append(out, run("Relation", &osm.Relation{ID: 9, Timestamp: ep, Members: osm.Members{{Type: "relation", Ref: 1, Lat: 1, Lon: 2, Orientation: 1, Nodes: osm.WayNodes{{ID: 1}}}}}, "corpus-epoch"))
+	out = append(out, run("OSM", &osm.OSM{Nodes: osm.Nodes{{ID: 1, Timestamp: ep}}, Ways: osm.Ways{{ID: 2, Timestamp: ep}}, Relations: osm.Relations{{ID: 3, Timestamp: ep}}}, "corpus-epoch"))
+	out = append(out, run("Note", &osm.Note{ID: 1, Comments: []*osm.NoteComment{{Text: "a\rb\r\nc", HTML: "<p>x\r</p>&amp;lt;"}}}, "corpus-note-cr"))
 	out = append(out, run("Bounds", b(1, 2, 3, 4), "corpus-bounds"))
 	out = append(out, run("Way", w1, "corpus-way"))
 	out = append(out, run("Relation", r1, "corpus-relation"))
@@ -349,6 +358,37 @@ func main() {
 		if len(o.scanned) > 0 {
 			w.Count("scanned-objects")
 		}
+	}
+	// size thresholds: count + hash transport (xcodec/big.go)
+	sizes := xcodec.BigSizesQuick
+	if args.Tier == "thorough" {
+		sizes = xcodec.BigSizesThorough
+	}
+	for kind := 1; kind <= xcodec.BigKinds; kind++ {
+		for _, n := range sizes {
+			typ, val := xcodec.BigValue(kind, n)
+			o := run(typ, val, "big")
+			c := &wire.Case{Class: fmt.Sprintf("big-%d", kind)}
+			var keys, skeys []int64
+			if o.merr == nil {
+				keys = xcodec.BigKeys(kind, o.v2)
+				skeys = xcodec.BigScanKeys(kind, o.scanned)
+			}
+			xcodec.EmitBig(c, kind, n, o.merr == nil && o.uerr == nil, keys, o.merr == nil && o.serr == nil, skeys)
+			c.Desc = map[string]interface{}{"big_kind": kind, "n": n, "value": "xcodec.BigValue(kind, n): " + typ + " with n items keyed (i*7919+13) mod 1000003",
+				"decoded_items": len(keys), "scanned_items": len(skeys), "marshal_error": fmt.Sprint(o.merr), "unmarshal_error": fmt.Sprint(o.uerr), "scan_error": fmt.Sprint(o.serr)}
+			exp := xcodec.BigExpected(n)
+			if o.merr != nil || o.uerr != nil || o.serr != nil || len(keys) != n || len(skeys) != n || xcodec.BigHash(keys) != xcodec.BigHash(exp) || xcodec.BigHash(skeys) != xcodec.BigHash(exp) {
+				c.OracleFail = fmt.Sprintf("value with %d items: after marshal, the whole-document decoder returned %d, the scanner %d (or different items)", n, len(keys), len(skeys))
+			}
+			w.Add(c)
+		}
+	}
+	{
+		c := &wire.Case{Class: "big-canary", Canary: 9, Desc: map[string]interface{}{"canary": "big count"}}
+		exp := xcodec.BigExpected(12)
+		xcodec.EmitBig(c, 1, 12, true, exp[:11], true, exp)
+		w.Add(c)
 	}
 	// canaries: one per observable class, built from the first corpus case (non-trivial)
 	for _, k := range []int{canTree, canValue, canScan} {
